@@ -350,7 +350,7 @@ func main() {
 		}
 		os.Exit(0)
 	}
-	maxLen := 4
+	maxLen := 5
 	if r.Thorough() {
 		maxLen = 6
 	}
